@@ -53,7 +53,8 @@ reaches every `return` / its end / every loop back-edge at the lock level it was
 every re-lock leaves the function, and nothing inside a release window touches library state.  (T1: the facts are
 recomputed from the tree by extract/lockbal.py on every run — path-sensitive over the statement tree.) -/
 theorem internal_windows_balanced : ∀ f ∈ Generated.lockWindows, f.balanced = true := by
-  decide
+  have h : Generated.lockWindows.all LockFn.balanced = true := by decide
+  exact fun f hf => List.all_eq_true.mp h f hf
 
 /-- the scan saw the construct: a non-API function entered with the lock held that unlocks and re-locks -/
 theorem internal_windows_seen :
